@@ -27,8 +27,6 @@ import (
 	spb "github.com/openconfig/gribi/v1/proto/service"
 )
 
-
-
 type fakeModify struct {
 	grpc.ServerStream
 	ctx   context.Context
@@ -266,6 +264,7 @@ func (h *SrvH) SendOn(f *fakeModify, m *spb.ModifyRequest) MsgOutcome {
 		f.ended = true
 		return MsgOutcome{Ended: true, Err: err}
 	case <-time.After(stepTO()):
+		noteIfWedged()
 		return MsgOutcome{Hang: true}
 	}
 	return h.await(f)
@@ -297,6 +296,7 @@ func (h *SrvH) await(f *fakeModify) MsgOutcome {
 				break
 			}
 			if time.Now().After(deadline) {
+				noteIfWedged()
 				o.Hang = true
 				break
 			}
@@ -306,9 +306,11 @@ func (h *SrvH) await(f *fakeModify) MsgOutcome {
 		o.Ended, o.Err = true, err
 		f.ended = true
 	case <-time.After(stepTO()):
+		noteIfWedged()
 		o.Hang = true
 	}
 	if !waitPump(f.gid) {
+		noteIfWedged()
 		o.Hang = true
 	}
 	o.Resps = f.take()
@@ -327,6 +329,7 @@ func (h *SrvH) Send(c int, m *spb.ModifyRequest) MsgOutcome {
 		f.ended = true
 		return MsgOutcome{Ended: true, Err: err}
 	case <-time.After(stepTO()):
+		noteIfWedged()
 		return MsgOutcome{Hang: true}
 	}
 	return h.await(f)
@@ -350,6 +353,7 @@ func (h *SrvH) Close(c int, mode string) MsgOutcome {
 		select {
 		case f.in <- nil:
 		case <-time.After(stepTO()):
+			noteIfWedged()
 			return MsgOutcome{Hang: true}
 		}
 	default:
@@ -361,9 +365,11 @@ func (h *SrvH) Close(c int, mode string) MsgOutcome {
 		o.Ended, o.Err = true, err
 		f.ended = true
 	case <-time.After(stepTO()):
+		noteIfWedged()
 		o.Hang = true
 	}
 	if !waitPump(f.gid) {
+		noteIfWedged()
 		o.Hang = true
 	}
 	o.Resps = f.take()
@@ -405,6 +411,7 @@ func (h *SrvH) CutMid(c int, m *spb.ModifyRequest, j int, mode string) MsgOutcom
 	select {
 	case f.in <- m:
 	case <-time.After(stepTO()):
+		noteIfWedged()
 		return MsgOutcome{Hang: true}
 	}
 	o := MsgOutcome{}
@@ -417,6 +424,7 @@ func (h *SrvH) CutMid(c int, m *spb.ModifyRequest, j int, mode string) MsgOutcom
 		select {
 		case f.in <- nil:
 		case <-time.After(stepTO()):
+			noteIfWedged()
 			return MsgOutcome{Hang: true}
 		}
 		select {
@@ -424,14 +432,17 @@ func (h *SrvH) CutMid(c int, m *spb.ModifyRequest, j int, mode string) MsgOutcom
 			o.Ended, o.Err = true, err
 			f.ended = true
 		case <-time.After(stepTO()):
+			noteIfWedged()
 			o.Hang = true
 		}
 	case <-time.After(stepTO()):
+		noteIfWedged()
 		o.Hang = true
 	}
 	// the receive loop may still be programming the operation it had in hand
 	for dl := time.Now().Add(stepTO()); !readerSettled(f.gid); {
 		if time.Now().After(dl) {
+			noteIfWedged()
 			o.Hang = true
 			break
 		}
@@ -495,6 +506,7 @@ func (h *SrvH) Get(req *spb.GetRequest, failAfter int) ([]*spb.GetResponse, erro
 		defer f.mu.Unlock()
 		return f.out, err, false
 	case <-time.After(stepTO()):
+		noteIfWedged()
 		return nil, nil, true
 	}
 }
@@ -540,6 +552,7 @@ func (h *SrvH) Flush(req *spb.FlushRequest) (*spb.FlushResponse, error, bool) {
 	case x := <-done:
 		return x.resp, x.err, false
 	case <-time.After(stepTO()):
+		noteIfWedged()
 		return nil, nil, true
 	}
 }
